@@ -190,6 +190,8 @@ func (h *Handler) HandleOpenFile(ctx *Context, path string) (fs.FileInfo, error)
 		sectorSize, err := determineSectorSize(f)
 		if err != nil {
 			log.WarnContext(ctx, "Determine sector size failed", logutil.ErrorAttr(err))
+			h.HandleCloseFile(ctx) // do not keep file opened with wrong sector size
+			return nil, err
 		}
 		if sectorSize > 0 && sectorSize != ctx.State.CDSectorSize {
 			log.InfoContext(ctx, "Sector size determined", slog.Int("size", sectorSize))
